@@ -18,6 +18,10 @@ CONFIGS = {
     "inf1": (annenv.tcfg(cyclic=4, annTTL=FOREVER, collect=1), FOREVER, 0, 11, False),
 }
 GRACEFUL_ONLY = {"inf1"}
+# both stacks have been up for a long time before the run: their session counters have wrapped once (reboot flag cleared)
+# and wrap a second time a few messages into the run
+BURN = {"wrap": 65535 + 65531}
+CONFIGS["wrap"] = CONFIGS["fin"]
 
 
 def mcfg(name):
@@ -81,7 +85,7 @@ def gen_faults(rng, lossy, n_max, t_max, graceful=False):
 
 def run(cfgname, faults):
     tc, sub_ttl, refresh, bound, _ = CONFIGS[cfgname]
-    net = net2.Net(tc, sub_ttl, refresh)
+    net = net2.Net(tc, sub_ttl, refresh, burn=BURN.get(cfgname, 0))
     t_end = (max([f["t"] + f.get("d", 0) for f in faults]) if faults else 0) + bound + 2 * tc["cyclic"] + 3
     ev = net.run(faults, t_end)
     return ev
@@ -215,7 +219,7 @@ def check(ctx):
                    "diag": {"config": "inf", "pattern": "F1" if f1_pattern(ev, "inf") else "", "faults": [(f["t"], f["kind"], f["node"]) for f in f1]}})
     pairs = [("crash", "restart", "srv"), ("crash", "restart", "wat"), ("stop", "start", "srv"), ("stop", "start", "wat"),
              ("loss_on", "loss_off", None)]
-    for name in (["fin", "inf", "inf1"] if ctx.quick else list(CONFIGS)):
+    for name in (["fin", "inf", "inf1", "wrap"] if ctx.quick else list(CONFIGS)):
         kn = [p for p in pairs if CONFIGS[name][4] or p[2] is not None]
         if name in GRACEFUL_ONLY:
             kn = [p for p in kn if p[0] == "stop"]
@@ -233,7 +237,7 @@ def check(ctx):
         sel = [t for t in traces if t["config"] == name][: ctx.pick(30, 250)]
         for t in sel:
             t["ticks"] = conform.ticks_of([e for e in t["ev"] if e.get("k") != "adv"])
-        res, _ = conform.run2({"Match": "C04_Match", "Cfg": "C04_" + name, "Sw": "AllOff"}, sel)
+        res, _ = conform.run2({"Match": "C04_Match", "Cfg": "C04_" + {"wrap": "fin"}.get(name, name), "Sw": "AllOff"}, sel)
         for t, r in zip(sel, res):
             total += 1
             acc += bool(r[0])
